@@ -6,7 +6,9 @@
 From Coq Require Import String.
 From Coq Require Import List NArith Arith.
 Import ListNotations.
-From YP Require Import Base.Str Lang.Ast Lang.Lexer Lang.Cst Lang.Parser Lang.ParserSound Lang.Unquote Lang.Front.
+From YP Require Import Base.Str Lang.Ast Lang.Lexer Lang.Cst Lang.Parser Lang.ParserSound Lang.Unquote Lang.Front
+  Lang.ParserMono Lang.ParserComplete Lang.ParserCanon Lang.ParserFuel Lang.ParserNorm Lang.FrontSpec
+  Comp.IR Comp.NumeralName Comp.CompileClause Lang.FrontCompile.
 
 (* The scan of every token rule computes exactly the longest prefix in the rule's language
    (rdef_lang is the specification of the four kinds of rule, rule_def the table of prolog.g4). *)
@@ -76,14 +78,133 @@ Theorem C10_front_whole_input : forall s prog, front s = Some prog ->
 Proof. exact front_whole_input. Qed.
 Print Assumptions C10_front_whole_input.
 
+(* PARSE_COMPLETE.  The recogniser accepts EVERY sentence of prolog.g4: for any derivation tree p of the grammar
+   (Lang/Cst.v: one constructor per alternative, so also the readings that precedence does not select), `parse`
+   -- with the depth fuel 5 * #tokens + 10 it supplies itself -- accepts the yield of p and returns the canonical
+   tree of that sentence. *)
+Theorem C10_parse_complete : forall p, parse (yield p) = Some (canon_program p).
+Proof. exact parse_complete. Qed.
+Print Assumptions C10_parse_complete.
+
+(* the same for all sufficiently large depth fuels (`ev f x` = f n = Some x for all n from some n0 on) *)
+Theorem C10_parse_complete_fuel : forall p,
+  ev (fun n => p_program (length (yield p)) n (yield p)) (canon_program p).
+Proof. exact parse_complete_fuel. Qed.
+Print Assumptions C10_parse_complete_fuel.
+
+(* PARSE_SPEC: the complete specification of the parser as a recogniser of the grammar's language.
+   It returns c exactly when c is the canonical derivation tree whose leaves are the given tokens ... *)
+Theorem C10_parse_spec : forall ts c, parse ts = Some c <-> (canonical c = true /\ yield c = map norm ts).
+Proof. exact parse_spec. Qed.
+Print Assumptions C10_parse_spec.
+
+(* ... and it rejects exactly when NO derivation tree of the grammar has these leaves *)
+Theorem C10_parse_none_spec : forall ts, parse ts = None <-> (forall p : cprogram, yield p <> map norm ts).
+Proof. exact parse_none_spec. Qed.
+Print Assumptions C10_parse_none_spec.
+
+(* UNAMBIGUOUS: the tree returned is the only canonical derivation tree of the token sequence *)
+Theorem C10_parse_unambiguous : forall ts c, parse ts = Some c ->
+  forall c', canonical c' = true -> yield c' = map norm ts -> c' = c.
+Proof. exact parse_unique. Qed.
+Print Assumptions C10_parse_unambiguous.
+
+(* At the level of texts.  `sentence s`: s has a maximal-munch tokenisation whose tokens are the leaves of some
+   derivation tree.  A text that is not a sentence is refused; a sentence is refused only by the visitor. *)
+Theorem C10_front_rejects_non_sentences : forall s, ~ sentence s -> front s = None.
+Proof. exact front_rejects_non_sentences. Qed.
+Print Assumptions C10_front_rejects_non_sentences.
+
+Theorem C10_front_spec : forall s prog, front s = Some prog <->
+  exists items cst k, lexes s items [] /\ canonical cst = true /\ yield cst = map norm (filter keep items) /\
+                      v_program cst 0 = Some (prog, k).
+Proof. exact front_spec. Qed.
+Print Assumptions C10_front_spec.
+
+Theorem C10_front_none_spec : forall s, front s = None <->
+  (~ sentence s) \/
+  (exists items cst, lexes s items [] /\ canonical cst = true /\ yield cst = map norm (filter keep items) /\
+                     v_program cst 0 = None).
+Proof. exact front_none_spec. Qed.
+Print Assumptions C10_front_none_spec.
+
+(* every derivation tree has a canonical one (the shape ANTLR's precedence rules select) with the same yield *)
+Theorem C10_canonical_tree_exists : forall p, canonical (canon_program p) = true /\ yield (canon_program p) = yield p.
+Proof. exact canon_program_spec. Qed.
+Print Assumptions C10_canonical_tree_exists.
+
+(* on canonical trees the parser is exact: parsing the yield of c returns c itself ... *)
+Theorem C10_parse_canonical_exact : forall c, canonical c = true -> forall m, length c <= m ->
+  ev (fun n => p_program m n (yield c)) c.
+Proof. exact program_complete. Qed.
+Print Assumptions C10_parse_canonical_exact.
+
+(* ... hence UNAMBIGUOUS: a token sequence is the yield of at most one canonical derivation tree *)
+Theorem C10_canonical_unique : forall p1 p2,
+  canonical p1 = true -> canonical p2 = true -> yield p1 = yield p2 -> p1 = p2.
+Proof. exact canonical_unique. Qed.
+Print Assumptions C10_canonical_unique.
+
+(* the depth fuel only bounds recursion: a term that parses with some fuel parses identically with more *)
+Theorem C10_term_fuel_monotone : forall n m ts x, n <= m -> p_term n ts = Some x -> p_term m ts = Some x.
+Proof. exact p_term_mono. Qed.
+Print Assumptions C10_term_fuel_monotone.
+
+(* the compiler keeps everything the front end hands over: one function per head key (first-occurrence order, no
+   key twice), its body the code of exactly the clauses with that key in source order *)
+Theorem C10_compile_whole_program : forall p, exists ir ks,
+  compile_program p = Some ir /\ keys_ok ks p /\
+  Forall2 (fun k f => fn_key f = k /\ exists pieces, fn_body f = concat pieces /\
+                      Forall2 clause_code (filter (has_key k) p) pieces) ks ir.
+Proof. exact compile_whole_program. Qed.
+Print Assumptions C10_compile_whole_program.
+
+(* accepted => complete sentence of the grammar AND every clause of it reaches the compiled program *)
+Theorem C10_front_compile_whole : forall s prog, front s = Some prog ->
+  (exists items cst k,
+     lexes s items [] /\ concat (map snd items) = s /\ yield cst = map norm (filter keep items) /\
+     v_program cst 0 = Some (prog, k) /\ Forall2 clause_image (clauses_of cst) prog) /\
+  exists ir ks,
+    compile_program prog = Some ir /\ keys_ok ks prog /\
+    Forall2 (fun k f => fn_key f = k /\ exists pieces, fn_body f = concat pieces /\
+                        Forall2 clause_code (filter (has_key k) prog) pieces) ks ir.
+Proof. exact front_compile_whole. Qed.
+Print Assumptions C10_front_compile_whole.
+
+(* The whole of _compile_prolog_from_stream up to the intermediate code (compile_front = front, compile_program, and the
+   compiler's own refusal of a numeral-named compound term that it reaches): code is produced only for complete
+   sentences of the grammar, and then for the whole sentence -- every clause node is one AST clause, every AST clause
+   has its code in the one function of its head key. *)
+Theorem C10_compile_front_rejects_non_sentences : forall s, ~ sentence s -> compile_front s = None.
+Proof. exact compile_front_rejects_non_sentences. Qed.
+Print Assumptions C10_compile_front_rejects_non_sentences.
+
+Theorem C10_compile_front_whole : forall s prog ir, compile_front s = Some (prog, ir) ->
+  front s = Some prog /\ compile_program prog = Some ir /\ ir_bad ir = false /\
+  (exists items cst k,
+     lexes s items [] /\ concat (map snd items) = s /\ yield cst = map norm (filter keep items) /\
+     v_program cst 0 = Some (prog, k) /\ Forall2 clause_image (clauses_of cst) prog) /\
+  exists ks, keys_ok ks prog /\
+    Forall2 (fun k f => fn_key f = k /\ exists pieces, fn_body f = concat pieces /\
+                        Forall2 clause_code (filter (has_key k) prog) pieces) ks ir.
+Proof. exact compile_front_whole. Qed.
+Print Assumptions C10_compile_front_whole.
+
 (* non-vacuity: a two-clause text with a comment is accepted with both clauses; the D9 inputs are refused *)
 Example C10_nonvacuous :
   (exists c1 c2, front (d "p(a). % c\10;q(X) :- p(X), \92;+ r.") = Some [c1; c2] /\ c_name c1 = d "p" /\ c_name c2 = d "q") /\
   front (d "foo(a). ) garbage") = None /\
   front (d "a(X) :- b(X),, c(X).") = None /\
   front (d "foo(a). 'unterminated") = None /\
-  front (d "foo(a). bar(b)") = None.
+  front (d "foo(a). bar(b)") = None /\
+  (* an ambiguous derivation tree (a = b = c read to the right, \+ over a conjunction, a bracketed term read as a
+     bracketed predicate expression) is not canonical; its canonical tree is what `parse` returns for its yield *)
+  (let t := [CD_clause (C_rule (SP_term (T_atom (A_ATOM (d "p"))))
+               (PE_not (PE_and (PE_paren (PE_simple (SP_term (T_binop (T_var (d "A")) (d "=") (T_binop (T_var (d "B")) (d "=") (T_var (d "C")))))))
+                               (PE_simple SP_cut))))] in
+   canonical t = false /\ canonical (canon_program t) = true /\ parse (yield t) = Some (canon_program t) /\
+   canon_program t <> t).
 Proof.
-  split; [|repeat split; vm_compute; reflexivity].
+  split; [|repeat split; try (vm_compute; reflexivity); try discriminate; eexists; vm_compute; reflexivity].
   eexists; eexists. vm_compute. repeat split; reflexivity.
 Qed.
